@@ -33,7 +33,8 @@ ASSUMPTIONS = [
     '(the statement does not list them as unhandled)',
 ]
 MIN_NONTRIVIAL = 30
-REQUIRED_COUNTERS = {'c12_jobs_under_hold': 60, 'c12_lifts_checked': 20,
+REQUIRED_COUNTERS = {'c12_declined_cleanup_under_push_fault': 3,
+                     'c12_jobs_under_hold': 60, 'c12_lifts_checked': 20,
                      'c12_f_unhandled_pairs': 500,
                      'c12_f_handled_pairs': 100}
 SHARD_TIMEOUT = {'quick': 900, 'thorough': 5400}
@@ -237,10 +238,12 @@ def merge_fully(case, pr, src):
 def run_case(acc, seed, layout, mode, hold, pos):
     rng = random.Random('c12-%s-%s-%s-%s-%s' % (seed, layout, mode, hold,
                                                 pos))
+    # integration pull requests (the default of a deployment) in the cases
+    # at position 1; positions 0 and 2 keep plain integration branches
     world = World(layout=layout, queue_mode=mode, seed=rng.getrandbits(30),
                   settings={'required_peer_approvals': 1,
                             'always_create_integration_pull_requests':
-                            rng.random() < 0.4})
+                            pos == 1})
     case = Case(acc, world, rng, hold, pos,
                 '%s/%s' % (layout, mode))
     case.case = [seed, layout, mode, hold, pos]
@@ -323,7 +326,7 @@ def run_case(acc, seed, layout, mode, hold, pos):
             else:
                 case.green()
         if hold == 'declined':
-            if rng.random() < 0.5:
+            if pos != 1:
                 # the clean-up push is refused for the whole retry window
                 # (pushes work again afterwards): the declined PR must not
                 # make any progress in that job either
@@ -459,8 +462,14 @@ def run_shard(spec, acc):
              for mode in ('queue', 'noqueue', 'skipqueue')
              for layout in ('d2', 's1d2', 'd1M1d2')]
     random.Random('c12-%s' % spec['seed']).shuffle(cases)
-    # every (hold, position) first
-    cases.sort(key=lambda c: 0)
+    # every (hold, position) first: rank by occurrence of the combination
+    seen, ranked = {}, []
+    for c in cases:
+        k = (c[2], c[3])
+        seen[k] = seen.get(k, 0) + 1
+        ranked.append((seen[k], c))
+    ranked.sort(key=lambda x: x[0])
+    cases = [c for _, c in ranked]
     mine = cases[spec['shard']::spec['nshards']]
     n = 5 if spec['tier'] == 'quick' else len(mine)
     for c in mine[:n]:
